@@ -224,6 +224,14 @@ DocumentedShape(M, o, r, u) ==
      /\ ~ \E y \in Restr(M, o.t, r) : y.t = u.t /\ y.rel = u.rel
   \/ \E x \in SubRw(rw) : x.k = "diff"                                        \* userset_with_exclusion
 
+CondParentMixedRestr(M, TS, o, r) ==
+  \E g \in GoalKeys(M, TS, o, r) :
+    /\ HasRel(M, g[1].t, g[2])
+    /\ \E x \in SubRw(Rw(M, g[1].t, g[2])) :
+         /\ x.k = "ttu"
+         /\ \E t \in TS : /\ t.o = g[1] /\ t.r = x.ts /\ t.c # "" /\ HasRel(M, t.u.t, x.rel)
+                          /\ \E y1, y2 \in Restr(M, t.u.t, x.rel) : y1.t = y2.t /\ y1.rel = y2.rel /\ y1.wc = y2.wc /\ y1.cond # y2.cond
+
 \* A valid-by-type conditional tuple whose stored context does not fit the declared
 \* parameter types (it is invalid for the model and must be ignored) lies in the
 \* type-level read set: the v2 engine evaluates its condition anyway.
@@ -249,11 +257,18 @@ V2Class(M, TS, ev) ==
          \* cycle, object that is its own parent): v2 prunes with a visited set shared across branches.
          IF ev.got = "F" /\ ref = "T" /\ ev.v1 = "T" /\ \E g \in GoalKeys(M, TS, ev.o, ev.r) : OnCycle(M, TS, g)
          THEN <<"KF_V2CycleFalseNegative", ref>>
+         \* KF-16: a conditioned tupleset tuple leads to a parent whose target relation lists the
+         \* subject's type both with and without a condition
+         ELSE IF ev.got = "F" /\ ref = "T" /\ ev.v1 = "T" /\ CondParentMixedRestr(M, TS, ev.o, ev.r)
+         THEN <<"KF_V2CondParentMixedRestr", ref>>
          ELSE CheckClass(M, TS, ev)
   ELSE IF ev.v1 \in {"T", "F"} /\ ev.got # ev.v1 THEN
          IF ev.reason # "" \/ ev.xreason # "" THEN <<"OK_V2_DOCUMENTED_DIFF", ref>>
          ELSE IF IsUserset(ev.u) /\ DocumentedShape(M, ev.o, ev.r, ev.u) THEN <<"BAD_V2_DETECTOR_MISSED", ref>>
-         ELSE IF IsUserset(ev.u) /\ ev.v1 = "T" /\ ref = "T" THEN <<"KF_V2UndocumentedUsersetDiff", ref>>
+         \* known finding KF-4 (broad by necessity: the weighted-graph engine loses userset subjects in
+         \* many shapes - reflexive goals, aliases inside unions, recursive usersets, contextual
+         \* tuples): a false negative for a userset subject that v1 and the reference both grant
+         ELSE IF IsUserset(ev.u) /\ ev.v1 = "T" /\ ref = "T" /\ ev.got = "F" THEN <<"KF_V2UndocumentedUsersetDiff", ref>>
          ELSE <<"BAD_V2_UNDOCUMENTED_DIFF", ref>>
   ELSE IF ev.v1 = "ERR" THEN
          (IF ev.reason # "" \/ ev.xreason # "" THEN <<"OK_V2_DOCUMENTED_DIFF", ref>> ELSE CheckClass(M, TS, ev))
